@@ -167,6 +167,39 @@ impl World {
 	}
 
 	/// C14-3: failure attribution, judged when the sender reports PaymentPathFailed.
+	/// C14-4: every hop of a path that was fulfilled off chain reports its hold time (all nodes of
+	/// the simulation produce attribution data).
+	pub fn onion_oracle_on_path_successful(&mut self, n: usize, pay: usize, hops: usize, hold_times: usize) {
+		if self.cfg.profile != "onionline" {
+			return;
+		}
+		// a hop that learned the preimage from the chain has no attribution data to pass on
+		let all_open = self.pays[pay].paths.iter().all(|x| {
+			x.chans.iter().all(|c| {
+				let ch = &self.chans[*c];
+				ch.force_closed_by.is_none()
+					&& !ch.tainted
+					&& !ch.close_requested
+					&& self.chain.utxos.contains_key(&ch.funding)
+					&& !self.chain.mempool.iter().any(|t| t.input.iter().any(|i| i.previous_output == ch.funding))
+			})
+		});
+		if !all_open {
+			return;
+		}
+		self.out.bump("oracle:C14-4 fulfil attribution reports every hop's hold time");
+		if hops >= 20 {
+			self.out.bump("probe:payment_over_20_hops_fulfilled");
+		}
+		if hold_times != hops {
+			self.violate(
+				"C14",
+				"C14-4 hold times do not cover the path",
+				format!("node {} pay {}: path of {} hops fulfilled off chain, {} hold times reported", n, pay, hops, hold_times),
+			);
+		}
+	}
+
 	pub fn onion_oracle_on_path_failed(
 		&mut self, n: usize, pay: usize, scid: Option<u64>, blamed_chan: Option<u64>,
 		blamed_node: Option<bitcoin::secp256k1::PublicKey>, permanent: bool,
